@@ -594,17 +594,19 @@ func lessIsStrict(fn *ssa.Function, field string, op token.Token) (bool, string)
 		if !ok {
 			return nil
 		}
-		if fa, ok := a.(*ssa.FieldAddr); ok {
-			f := structField(fa.X.Type(), fa.Field)
-			if f == nil || f.Name() != field {
-				return nil
-			}
-			a = fa.X
-		} else if field != "" {
-			// field of the pointed-to element: *(elem).field where elem itself loaded
+		fa, ok := a.(*ssa.FieldAddr)
+		if !ok {
 			return nil
 		}
-		if ia, ok := a.(*ssa.IndexAddr); ok {
+		f := structField(fa.X.Type(), fa.Field)
+		if f == nil || f.Name() != field {
+			return nil
+		}
+		a = fa.X
+		if l, isL := loadOf(a); isL { // slice of pointers: element loaded first
+			a = l
+		}
+		if ia, ok := a.(*ssa.IndexAddr); ok && strip(ia.X) == ssa.Value(fn.Params[0]) {
 			return ia.Index
 		}
 		return nil
